@@ -17,6 +17,10 @@ def lex_of(doc_text):
         return "cq_none"
     if t.startswith("```") and t.endswith("```"):
         return "cq_code"
+    if re.fullmatch(r"-?\d{10,}", t):
+        return "big_decimal"
+    if re.fullmatch(r"-?\d+(\.\d+)?e[-+]?\d+", t):
+        return "exp_text"
     if re.fullmatch(r"0", t):
         return "decimal_zero"
     if re.fullmatch(r"\d+", t):
@@ -29,9 +33,12 @@ def lex_of(doc_text):
         return "neg_float_text"
     if t in ("True", "False"):
         return t
+    if re.search(r"\w\.\w", t.strip('"')) and not re.fullmatch(r"-?[\d.e+-]+", t):
+        return "dq_dotted" if t.startswith('"') else "bare_dotted"
+    phrase = bool(re.search(r"[ ;,/~]", t.strip('"')))
     if t.startswith('"') and t.endswith('"'):
-        return "dq_word"
-    return "bare_word"
+        return "dq_phrase" if phrase else "dq_word"
+    return "bare_phrase" if phrase else "bare_word"
 
 
 def tokenise(text, style, names):
